@@ -212,6 +212,8 @@ def count_chars(E, items):
 
 def fmt_value(E, f, trait, x):
     """format value x with trait into formatter f"""
+    while isinstance(x, Ref) and isinstance(x.get(), Ref):
+        x = x.get()
     v = deref(x)
     if isinstance(v, Obj) and v.kind == 'Arguments':
         f.write(E, render_arguments(E, v))
